@@ -163,6 +163,13 @@ class Check(PropertyCheck):
                     j = {"nwk": rng.randrange(65536), "ieee": ieee, "status": status, "decision": decision,
                          "parent": rng.randrange(65536), "hseq": rng.randrange(256)}
                     cases.append({"v": v, "kind": "join", "m": j})
+        # the coordinator's own short address changes along the life of one application object (a network re-formed or
+        # restored: load_network_info() installs a new node_info): every case names the own address in force
+        own = OWN_NWK
+        for i, c in enumerate(cases):
+            if i % 37 == 36:
+                own = rng.choice([0x0000, OWN_NWK, 0xA5E8, 0x0001, 0x7FFE])
+            c["own"] = own
         return cases
 
     def frame(self, case):
@@ -172,6 +179,11 @@ class Check(PropertyCheck):
         app, rec = self._app(case["v"])
         del rec[:]
         asyncio.set_event_loop(self.loop)
+        own = case.get("own", OWN_NWK)
+        if int(app.state.node_info.nwk) != own:
+            import dataclasses
+            import zigpy.types as zt_
+            app.state.node_info = dataclasses.replace(app.state.node_info, nwk=zt_.NWK(own))    # as load_network_info() does
         # firmware convention: a callback frame never carries the sequence number of a pending command
         # (the manufacturer-id task may have one outstanding on this application)
         while case["m"]["hseq"] in app._ezsp._protocol._awaiting:
@@ -211,7 +223,7 @@ class Check(PropertyCheck):
         return d
 
     def model_input(self, case):
-        return f"({case['v']}, {OWN_NWK}%Z, [{';'.join(str(b) for b in self.frame(case))}])"
+        return f"({case['v']}, {case.get('own', OWN_NWK)}%Z, [{';'.join(str(b) for b in self.frame(case))}])"
 
     def obs_to_z(self, case, obs):
         if "crash" in obs:
@@ -233,7 +245,7 @@ class Check(PropertyCheck):
         m = case["m"]
         evs = obs["events"]
         if case["kind"] == "incoming":
-            want_dst = {0: [0, OWN_NWK], 2: [1, m["group"]], 4: [2, 0xFFFC]}.get(m["type"])
+            want_dst = {0: [0, case.get("own", OWN_NWK)], 2: [1, m["group"]], 4: [2, 0xFFFC]}.get(m["type"])
             if want_dst is None:
                 return None if not evs else f"message type {m['type']} must yield no packet, got {len(evs)}"
             if len(evs) != 1 or evs[0]["k"] != "packet":
